@@ -384,6 +384,62 @@ theorem client_K10_witness :
       (clientCall Gen.chain Gen.routes cfgOpen (.statusAll 136 false)).1
       (clientCall Gen.chain Gen.routes cfgOpen (.statusAll 136 false)).2 = false := by decide
 
+/-! ### the add endpoint (its model: `addHandle`) -/
+
+/-- without valid credentials the add endpoint asks nothing of the cluster -/
+theorem add_auth_gate (r : AddReq) (h : addAuthorized r = false) : (addHandle r).ops = [] := by
+  unfold addHandle
+  have : (r.creds && r.auth != .right) = true := by
+    unfold addAuthorized at h
+    cases hc : r.creds <;> cases ha : r.auth <;> simp_all
+  simp [this]
+
+/-- a request without a multipart body, or with any pin option / add option that `AddParamsFromQuery`
+    rejects, is refused 400 with one JSON document and nothing is asked of the cluster -/
+theorem add_parse_refused (r : AddReq) (ha : addAuthorized r = true)
+    (h : r.mp = .none ∨ addParams r.query r.md = none) :
+    (addHandle r).status = 400 ∧ (addHandle r).body = .docs 1 ∧ (addHandle r).ops = [] := by
+  unfold addHandle
+  have hna : (r.creds && r.auth != .right) = false := by
+    unfold addAuthorized at ha
+    cases hc : r.creds <;> cases hau : r.auth <;> simp_all
+  simp only [hna, Bool.false_eq_true, if_false]
+  by_cases hm : r.mp = .none
+  · simp [hm]
+  · rcases h with h | h
+    · exact absurd h hm
+    · simp [hm, h]
+
+/-- a well-formed add that the adder does not reject later (K11), outside the CIDv0-with-another-hash crash
+    (K12), asks for one allocation with the carried options, puts blocks, and pins a plain data pin
+    carrying exactly the carried options (mode and pin-update do not apply to adding) -/
+theorem add_faithful (r : AddReq) (ha : addAuthorized r = true) (hm : r.mp = .ok) (p : AddParams)
+    (hp : addParams r.query r.md = some p) (hl : lateFailure r p = false) (hr : r.rpc = .ok)
+    (hv : (p.cidv == 0 && hashOf r != "sha2-256") = false)
+    (w : Opts) (hw : carried r.query r.md = some w) :
+    addFaithful r (addHandle r) = true := by
+  obtain ⟨o, ho, hpo⟩ := addParams_opts hp
+  have how : o = w := by rw [fromQuery_of_carried hw] at ho; simpa using ho.symm
+  subst how
+  unfold addHandle
+  have hna : (r.creds && r.auth != .right) = false := by
+    unfold addAuthorized at ha
+    cases hc : r.creds <;> cases hau : r.auth <;> simp_all
+  simp only [hna, hm, hp, hr, hv, Bool.false_eq_true, if_false]
+  simp [addFaithful, hw, hl, addCmp, addOpts, hpo, pinArg, pinWithOpts, depthToMode, modeToDepth, canonOpts]
+
+/-- K11 and K12 are real: a broken multipart body is answered 200 with an error trailer; a hash function
+    other than sha2-256 with the default CID version gets no response after an allocation was requested -/
+def addReq0 : AddReq := { creds := false, auth := .none, mp := .ok, query := [], md := [], rpc := .ok }
+theorem add_K11_witness :
+    addHandle { addReq0 with mp := .junk } = { status := 200, body := .docs 0, trailer := true, root := none, ops := [] } ∧
+    addHolds { addReq0 with mp := .junk } (addHandle { addReq0 with mp := .junk }) = false := by decide
+theorem add_K12_witness :
+    (addHandle { addReq0 with query := [("hash", .valid (.str "sha3-512"))] }).status = 0 ∧
+    (addHandle { addReq0 with query := [("hash", .valid (.str "sha3-512"))] }).ops.length = 1 ∧
+    addHolds { addReq0 with query := [("hash", .valid (.str "sha3-512"))] }
+      (addHandle { addReq0 with query := [("hash", .valid (.str "sha3-512"))] }) = false := by decide
+
 /-! ### the full statement, and why it is false of the unchanged tree -/
 
 /-- the property with no deviation excluded -/
